@@ -27,8 +27,43 @@ import (
 const (
 	verifDir = "/verif"
 	simDir   = "/verif/sim"
-	repoDir  = "/repo"
 )
+
+// repoDir is /repo. VERIF_REPO redirects the build to another checkout; it is
+// only used for trying seeded changes in scratch worktrees without touching
+// /repo (the registered commands never set it).
+var repoDir = "/repo"
+
+// outDir is where evidence and replay files go (VERIF_OUT redirects it for
+// the same purpose).
+var outDir = "/verif"
+
+func init() {
+	if r := os.Getenv("VERIF_REPO"); r != "" {
+		repoDir = r
+	}
+	if o := os.Getenv("VERIF_OUT"); o != "" {
+		outDir = o
+	}
+}
+
+var modfileArgs []string
+
+// modfile returns -modfile arguments when the build must use another checkout.
+func modfile() []string {
+	if repoDir == "/repo" {
+		return nil
+	}
+	if modfileArgs != nil {
+		return modfileArgs
+	}
+	mf := filepath.Join(scratch, "go.mod")
+	content := "module verifsim\n\ngo 1.23\n\nrequire filippo.io/edwards25519 v0.0.0\n\nreplace filippo.io/edwards25519 => " + repoDir + "\n"
+	os.WriteFile(mf, []byte(content), 0o644)
+	os.WriteFile(filepath.Join(scratch, "go.sum"), nil, 0o644)
+	modfileArgs = []string{"-modfile=" + mf}
+	return modfileArgs
+}
 
 var scratch string
 
@@ -68,7 +103,8 @@ func mkScratch() {
 // build compiles the simulator from /repo's current working tree.
 func build(name string, args ...string) string {
 	out := filepath.Join(scratch, name)
-	a := append([]string{"build", "-o", out}, args...)
+	a := append([]string{"build", "-o", out}, modfile()...)
+	a = append(a, args...)
 	a = append(a, "./cmd/edsim")
 	cmd := exec.Command("go", a...)
 	cmd.Dir = simDir
@@ -228,6 +264,7 @@ type workerOut struct {
 	Prop       string            `json:"property"`
 	Build      string            `json:"build"`
 	From, To   uint64
+	Done       uint64            `json:"done"`
 	Stats      *stats            `json:"stats"`
 	Hashes     []string          `json:"hashes"`
 	RawHashes  []string          `json:"raw_hashes"`
@@ -290,25 +327,36 @@ func runBatch(bin, prop string, seed uint64, n, chunk, workers int, deadline tim
 	b := &batch{stats: &stats{C: map[string]int64{}}, hashes: map[string]bool{}, known: map[string]int{}, rawByIdx: map[uint64]string{}, valByIdx: map[uint64]string{}}
 	start := time.Now()
 	type job struct{ from, to int }
-	jobs := make(chan job, 1024)
-	go func() {
-		for f := 0; f < n; f += chunk {
-			t := f + chunk
-			if t > n {
-				t = n
-			}
-			jobs <- job{f, t}
+	var queue []job
+	for f := 0; f < n; f += chunk {
+		t := f + chunk
+		if t > n {
+			t = n
 		}
-		close(jobs)
-	}()
+		queue = append(queue, job{f, t})
+	}
 	var mu sync.Mutex
 	var wg sync.WaitGroup
+	next := func() (job, bool) {
+		mu.Lock()
+		defer mu.Unlock()
+		if len(queue) == 0 {
+			return job{}, false
+		}
+		j := queue[0]
+		queue = queue[1:]
+		return j, true
+	}
 	knownFile := filepath.Join(verifDir, "known_findings.txt")
 	for w := 0; w < workers; w++ {
 		wg.Add(1)
 		go func(w int) {
 			defer wg.Done()
-			for j := range jobs {
+			for {
+				j, ok := next()
+				if !ok {
+					return
+				}
 				if time.Now().After(deadline) {
 					continue
 				}
@@ -350,6 +398,10 @@ func runBatch(bin, prop string, seed uint64, n, chunk, workers int, deadline tim
 					continue
 				}
 				mu.Lock()
+				if int(wo.Done) < j.to && int(wo.Done) > j.from {
+					// the process stopped at a violation: the rest of the chunk runs in a fresh process
+					queue = append([]job{{int(wo.Done), j.to}}, queue...)
+				}
 				b.stats.merge(wo.Stats)
 				b.runs += len(wo.Hashes)
 				for i, h := range wo.Hashes {
@@ -517,7 +569,7 @@ func reportViolation(id, bin, bname string, v *runResult) string {
 	tr["build"] = bname
 	orig := tr
 	min := minimise(bin, tr, v.Violation)
-	dir := filepath.Join(verifDir, "replays", id)
+	dir := filepath.Join(outDir, "replays", id)
 	os.MkdirAll(dir, 0o755)
 	name := fmt.Sprintf("%s_seed%d_run%d.json", sanitize(v.Violation.Oracle), uint64(tr["seed"].(float64)), v.Idx)
 	path := filepath.Join(dir, name)
@@ -573,43 +625,23 @@ func replayFile(bin, path string) *violation {
 	return rr.Violation
 }
 
-// minimise is ddmin over the call list, every candidate in a fresh process.
-func minimise(bin string, tr map[string]interface{}, want *violation) map[string]interface{} {
-	calls, _ := tr["calls"].([]interface{})
-	deadline := time.Now().Add(60 * time.Second)
-	tries := 0
-	tmp := filepath.Join(scratch, "cand.json")
-	test := func(cs []interface{}) bool {
-		if tries >= 400 || time.Now().After(deadline) {
-			return false
-		}
-		tries++
-		c := map[string]interface{}{}
-		for k, v := range tr {
-			c[k] = v
-		}
-		c["calls"] = cs
-		b, _ := json.Marshal(c)
-		os.WriteFile(tmp, b, 0o644)
-		v := replayFile(bin, tmp)
-		return v != nil && v.Prop == want.Prop && v.Oracle == want.Oracle
-	}
-	// cut everything after the violating step
-	if want.Step+1 < len(calls) {
-		calls = calls[:want.Step+1]
+// ddmin reduces list while test keeps returning true.
+func ddmin(list []interface{}, test func([]interface{}) bool, allowEmpty bool) []interface{} {
+	if allowEmpty && len(list) > 0 && test([]interface{}{}) {
+		return []interface{}{}
 	}
 	n := 2
-	for len(calls) >= 2 {
-		chunk := (len(calls) + n - 1) / n
+	for len(list) >= 2 {
+		chunk := (len(list) + n - 1) / n
 		reduced := false
-		for i := 0; i < len(calls); i += chunk {
+		for i := 0; i < len(list); i += chunk {
 			j := i + chunk
-			if j > len(calls) {
-				j = len(calls)
+			if j > len(list) {
+				j = len(list)
 			}
-			cand := append(append([]interface{}{}, calls[:i]...), calls[j:]...)
-			if len(cand) > 0 && test(cand) {
-				calls = cand
+			cand := append(append([]interface{}{}, list[:i]...), list[j:]...)
+			if (len(cand) > 0 || allowEmpty) && test(cand) {
+				list = cand
 				if n > 2 {
 					n--
 				}
@@ -622,21 +654,63 @@ func minimise(bin string, tr map[string]interface{}, want *violation) map[string
 				break
 			}
 			n *= 2
-			if n > len(calls) {
-				n = len(calls)
+			if n > len(list) {
+				n = len(list)
 			}
 		}
-		if tries >= 400 || time.Now().After(deadline) {
-			break
-		}
 	}
+	return list
+}
+
+// minimise shrinks a failing trace, every candidate in a fresh process: first
+// the prelude (runs executed earlier in the same process; dropped entirely if
+// the violation reproduces from a cold process), then the call list.
+func minimise(bin string, tr map[string]interface{}, want *violation) map[string]interface{} {
+	calls, _ := tr["calls"].([]interface{})
+	prelude, _ := tr["prelude"].([]interface{})
+	deadline := time.Now().Add(90 * time.Second)
+	tries := 0
+	tmp := filepath.Join(scratch, "cand.json")
+	run := func(pre, cs []interface{}) bool {
+		if tries >= 500 || time.Now().After(deadline) {
+			return false
+		}
+		tries++
+		c := map[string]interface{}{}
+		for k, v := range tr {
+			c[k] = v
+		}
+		c["calls"] = cs
+		if len(pre) > 0 {
+			c["prelude"] = pre
+		} else {
+			delete(c, "prelude")
+		}
+		b, _ := json.Marshal(c)
+		os.WriteFile(tmp, b, 0o644)
+		v := replayFile(bin, tmp)
+		return v != nil && v.Prop == want.Prop && v.Oracle == want.Oracle
+	}
+	// cut everything after the violating step
+	if want.Step+1 < len(calls) {
+		calls = calls[:want.Step+1]
+	}
+	if len(prelude) > 0 {
+		prelude = ddmin(prelude, func(p []interface{}) bool { return run(p, calls) }, true)
+	}
+	calls = ddmin(calls, func(cs []interface{}) bool { return run(prelude, cs) }, false)
 	out := map[string]interface{}{}
 	for k, v := range tr {
 		out[k] = v
 	}
 	out["calls"] = calls
-	out["note"] = fmt.Sprintf("minimised by ddmin in %d candidate replays", tries)
-	delete(out, "violation")
+	delete(out, "prelude")
+	note := fmt.Sprintf("minimised by ddmin in %d candidate replays (each in a fresh process)", tries)
+	if len(prelude) > 0 {
+		out["prelude"] = prelude
+		note += fmt.Sprintf("; needs %d earlier run(s) in the same process (package state left behind by earlier calls)", len(prelude))
+	}
+	out["note"] = note
 	vb, _ := json.Marshal(want)
 	var vm map[string]interface{}
 	json.Unmarshal(vb, &vm)
@@ -762,9 +836,9 @@ func countPrefix(m map[string]int64, p string) map[string]int64 {
 }
 
 func writeEvidenceFile(id string, ev map[string]interface{}) {
-	os.MkdirAll(filepath.Join(verifDir, "evidence"), 0o755)
+	os.MkdirAll(filepath.Join(outDir, "evidence"), 0o755)
 	bts, _ := json.MarshalIndent(ev, "", " ")
-	if err := os.WriteFile(filepath.Join(verifDir, "evidence", id+".json"), bts, 0o644); err != nil {
+	if err := os.WriteFile(filepath.Join(outDir, "evidence", id+".json"), bts, 0o644); err != nil {
 		inconclusive("cannot write evidence: %v", err)
 	}
 }
